@@ -10,7 +10,7 @@ REPO = os.environ.get("VERIF_REPO", "/repo")
 COQ = os.path.join(VERIF, "coq")
 ML = os.path.join(VERIF, "ml")
 MLSRC = os.path.join(VERIF, "ml_src")
-EVID = os.path.join(VERIF, "evidence")
+EVID = os.environ.get("VERIF_EVIDENCE_DIR") or os.path.join(VERIF, "evidence")   # seeded runs (harness/run_seed.py) write elsewhere
 FINDINGS = os.path.join(VERIF, "findings")
 KNOWN_FILE = os.path.join(VERIF, "KNOWN_FINDINGS.txt")
 LOCK = os.path.join(VERIF, ".build.lock")
